@@ -81,6 +81,22 @@ def make_garbage(kind, genuine):
     return GARBAGE
 
 
+def drain(sock):
+    """uplink messages the emulator had ALREADY written when the association is closed (they were sitting in the socket):
+    the close then takes effect after them"""
+    n = 0
+    try:
+        sock.setblocking(False)
+        while True:
+            m = sock.recv(65536)
+            if not m:
+                break
+            n += 1
+    except (BlockingIOError, OSError):
+        pass
+    return n
+
+
 def run(binary, cfg, seed, fault=None, argv=("-t",), timeout=90, strict=False, yaml_text=None):
     """fault = None | (j, 'close', i) | (j, 'garbage', i, variant): applied to the answer to the j-th uplink message
     (0-based): close = the AMF sends the first i downlink messages of its answer, then closes; garbage = the i-th
@@ -96,7 +112,7 @@ def run(binary, cfg, seed, fault=None, argv=("-t",), timeout=90, strict=False, y
     p = subprocess.Popen([binary, *argv], cwd=wd, env=env, pass_fds=[b.fileno()], stdout=subprocess.PIPE, stderr=subprocess.STDOUT)
     b.close()
     a.settimeout(20)
-    k, verdict, nrep, t_fault, uplinks, kinds, garbage_sent = 0, "ok", [], None, [], [], None
+    k, verdict, nrep, t_fault, uplinks, kinds, garbage_sent, late = 0, "ok", [], None, [], [], None, 0
     try:
         while True:
             try:
@@ -110,6 +126,7 @@ def run(binary, cfg, seed, fault=None, argv=("-t",), timeout=90, strict=False, y
             if fault and fault[0] == k and fault[1] == "close" and fault[2] == 0:
                 # close at once (before computing any answer): the emulator may be about to write again within milliseconds
                 t_fault = time.time()
+                late = drain(a)
                 a.close()
                 verdict = "fault close@%d after 0 replies" % k
                 break
@@ -129,6 +146,7 @@ def run(binary, cfg, seed, fault=None, argv=("-t",), timeout=90, strict=False, y
                 for o in outs[:fault[2]]:
                     a.send(o)
                 t_fault = time.time()
+                late = drain(a)
                 a.close()
                 verdict = "fault close@%d after %d replies" % (k, fault[2])
                 break
@@ -156,7 +174,7 @@ def run(binary, cfg, seed, fault=None, argv=("-t",), timeout=90, strict=False, y
     except OSError:
         pass
     shutil.rmtree(wd, ignore_errors=True)
-    return dict(verdict=verdict, rc=rc, uplinks=uplinks, nrep=nrep, kinds=kinds, stdout=out.decode(errors="replace"), amf=amf,
+    return dict(verdict=verdict, rc=rc, uplinks=uplinks, nrep=nrep, kinds=kinds, stdout=out.decode(errors="replace"), amf=amf, sent_before_close=late,
                 t_after_fault=(t_end - t_fault) if t_fault else None, findings=list(amf.findings),
                 garbage=garbage_sent.hex() if garbage_sent else None)
 
